@@ -295,6 +295,31 @@ def h_trees(ctx, n, depth):
     ctx.claim('leaves_untouched', bool(ctx.all_eq(ref_full(A), FA)) and bool(ctx.all_eq(ref_full(B), FB)))
 
 
+def h_int_dtype_cores(ctx, d):
+    """Hand-written cores of integer dtype as the first / second operand, a float
+    tensor or a number as the other one: the result is the real-valued sum /
+    difference / product (no value is cast to the integer dtype)."""
+    n = [2] * d
+    rk = [1] + [2] * (d - 1) + [1]
+    Yi = [np.arange(1, 1 + rk[k] * 2 * rk[k + 1], dtype=int).reshape(rk[k], 2, rk[k + 1]) % 5 - 2 for k in range(d)]
+    Z = ctx.tt('z', n, 1)
+    Fi = ref_full([np.array([[[ctx.const(int(v)) for v in row] for row in blk] for blk in G], dtype=Z[0].dtype) for G in Yi])
+    Fz = ref_full(Z)
+    half = ctx.real('c')                  # number operand (symbolic real)
+    ctx.claim('int_plus_float', ctx.all_eq(ref_full(teneva.add(Yi, Z)), Fi + Fz))
+    ctx.claim('float_plus_int', ctx.all_eq(ref_full(teneva.add(Z, Yi)), Fi + Fz))
+    ctx.claim('int_minus_float', ctx.all_eq(ref_full(teneva.sub(Yi, Z)), Fi - Fz))
+    ctx.claim('int_times_float', ctx.all_eq(ref_full(teneva.mul(Yi, Z)), Fi * Fz))
+    ctx.claim('int_plus_number', ctx.all_eq(ref_full(teneva.add(Yi, half)), Fi + half))
+    ctx.claim('int_minus_number', ctx.all_eq(ref_full(teneva.sub(Yi, half)), Fi - half))
+    ctx.claim('number_minus_int', ctx.all_eq(ref_full(teneva.sub(half, Yi)), half - Fi))
+    ctx.claim('float_minus_int', ctx.all_eq(ref_full(teneva.sub(Z, Yi)), Fz - Fi))
+    ctx.claim('int_times_number', ctx.all_eq(ref_full(teneva.mul(Yi, half)), Fi * half))
+    ctx.claim('number_times_int', ctx.all_eq(ref_full(teneva.mul(half, Yi)), Fi * half))
+    ctx.claim('int_scalar_product', ctx.eq(teneva.mul_scalar(Yi, Z), (Fi * Fz).sum()))
+    ctx.claim('int_sum', ctx.eq(teneva.sum(Yi), Fi.sum()))
+
+
 def h_integer_exact(ctx, n, r):
     """Bit-for-bit on small integers: with integer leaves no division, root or
     transcendental is executed by get/full/sum/add/sub/mul/outer/mul_scalar, so
@@ -330,6 +355,8 @@ OPTS = {'raw': True}
 
 def instances(tier):
     out = []
+    for d in (2, 3):
+        out.append({'func': 'h_int_dtype_cores', 'params': {'d': d}})
     quick = tier == 'quick'
     shapes = [([2, 2], 1), ([2, 3], 2), ([2, 1, 2], 2), ([2, 2, 2], [1, 2, 3, 1]), ([1, 2], 3)]
     if not quick:
